@@ -197,12 +197,12 @@ var sessionTextFuncs = []string{
 	"parseJWT", "JWT.Verify", "verifyAudience", "verifyIssuer", "verifyTimeConstraint", "verifyExpiration", "verifyIssuedAt", "verifyNotBefore", "verifySignature",
 	"JWKCache.GetJWKS", "JWKCache.Cleanup", "jwkToPEM", "TraefikOidc.VerifyJWTSignatureAndClaims",
 	// token verification, caches, limiter (model Oidc.Verify, Oidc.Limiter)
-	"TraefikOidc.VerifyToken", "TraefikOidc.performPreVerificationChecks", "TraefikOidc.RevokeToken", "TokenCache.Set", "TokenCache.Get", "TokenCache.Delete", "TokenCache.Cleanup", "extractClaims",
+	"TraefikOidc.VerifyToken", "TraefikOidc.performPreVerificationChecks", "TraefikOidc.RevokeToken", "TraefikOidc.cacheVerifiedToken", "TokenCache.Set", "TokenCache.Get", "TokenCache.Delete", "TokenCache.Cleanup", "extractClaims",
 	// discovery (model Oidc.Discovery)
 	"TraefikOidc.initializeMetadata", "TraefikOidc.updateMetadataEndpoints", "TraefikOidc.startMetadataRefresh", "discoverProviderMetadata", "fetchMetadata",
-	"MetadataCache.GetMetadata", "MetadataCache.isCacheValid", "MetadataCache.Cleanup",
+	"MetadataCache.GetMetadata", "MetadataCache.isCacheValid", "MetadataCache.Cleanup", "createDefaultHTTPClient",
 	// claims and allow-lists (model Oidc.Strings, Handler.extract)
-	"TraefikOidc.isAllowedDomain", "TraefikOidc.extractGroupsAndRoles", "isLocalRedirectTarget", "buildFullURL", "TraefikOidc.determineExcludedURL",
+	"TraefikOidc.isAllowedDomain", "TraefikOidc.extractGroupsAndRoles", "isLocalRedirectTarget", "buildFullURL", "TraefikOidc.determineExcludedURL", "TraefikOidc.buildAuthURL", "TraefikOidc.buildURLWithParams", "BuildLogoutURL", "New",
 	// session.go (models Oidc.Session, Oidc.Codec)
 	"compressToken", "decompressToken", "deriveBlockKey", "NewSessionManager", "SessionManager.getSessionOptions", "SessionManager.GetSession",
 	"SessionManager.getTokenChunkSessions", "SessionData.Save", "SessionData.deleteStaleChunkCookies", "SessionData.Clear", "SessionData.clearTokenChunks",
